@@ -133,7 +133,8 @@ class Ctx(object):
 
     def model_check(self, module, cfg=None, workers=8, timeout=3000, require_actions=True, extra=()):
         """Exhaustive bounded model check; invariant violation => property violation."""
-        r = self.tlc(module, cfg, workers=workers, coverage=True, timeout=timeout, extra=extra)
+        # -coverage makes RECURSIVE-heavy specs much slower: only when the per-action vacuity guard is wanted
+        r = self.tlc(module, cfg, workers=workers, coverage=bool(require_actions), timeout=timeout, extra=extra)
         self.cov['states'] += r['distinct']
         self.cov['transitions'] += r['generated']
         if not r['ok']:
